@@ -335,6 +335,126 @@ def probe_types(cc_mod):
     return rows, psep, isep, units_modes.pop()
 
 
+def probe_types_by_member(cc_mod):
+    """the per-type table once more, with the model named through the combined type-model enumeration (model_type=...) instead of
+    (ctype, model): a synthetic entry of every ComponentType, the enumeration populated from that synthetic catalogue"""
+    from fim.slivers.attached_components import ComponentType
+    from fim.slivers.capacities_labels import Labels
+    K = cc_mod.ComponentCatalog
+    ports = {"pa": "25", "pb": "100"}
+    ents = []
+    for t in ComponentType:
+        ents += [{"Model": "with", "Type": str(t), "Details": "dw", "Interfaces": dict(ports)}, {"Model": "without", "Type": str(t), "Details": "do"}]
+    saved_enum, saved_map = cc_mod.ComponentModelType, dict(cc_mod.ComponentModelTypeMap)
+    rows = []
+    try:
+        with _swap_components(cc_mod, ents):
+            K().populate_catalog_models_and_types()
+            members = list(cc_mod.ComponentModelType)
+            if len(members) != len(ents):
+                raise ExtractionError("populate_catalog_models_and_types: %d members for %d synthetic entries" % (len(members), len(ents)))
+            for k, t in enumerate(ComponentType):
+                T = str(t)
+                mw, mo = members[2 * k], members[2 * k + 1]
+                try:
+                    c0 = K().generate_component(name="nm", model_type=mo)
+                    c1 = K().generate_component(name="nm", model_type=mw)
+                    c2 = K().generate_component(name="nm", model_type=mw, parent_name="pp", ns_node_id="sid", interface_node_ids=["i0", "i1"],
+                                                interface_labels=[Labels(bdf="0000:41:00.0"), Labels(bdf=["0000:41:00.0", "0000:41:00.1", "0000:41:00.2"])])
+                    c3 = K().generate_component(name="nm", model_type=mw, ctype=t, model="with")
+                except Exception as e:
+                    raise ExtractionError("generate_component(model_type=...) raises %s: %s for a synthetic entry of type %s" % (type(e).__name__, e, T))
+                if c0.network_service_info is not None or (c0.get_model(), str(c0.get_type()), c0.get_details()) != ("without", T, "do"):
+                    raise ExtractionError("generate_component(model_type=...): entry without Interfaces (%s)" % T)
+                obs = set()
+                for c in (c1, c2, c3):
+                    if (c.get_model(), str(c.get_type()), c.get_details()) != ("with", T, "dw"):
+                        raise ExtractionError("generate_component(model_type=...): model/type/details of a synthetic %s entry are not the entry's" % T)
+                    ns, ifs = _one_service(c)
+                    if ns is None or [i.get_name() for i in ifs] != [c1_n for c1_n in [i.get_name() for i in _one_service(c1)[1]]] or len(ifs) != 2:
+                        raise ExtractionError("generate_component(model_type=...): interfaces of a synthetic %s entry" % T)
+                    nm = ns.get_name()
+                    if "nm" not in nm:
+                        raise ExtractionError("generate_component(model_type=...): service name %r" % nm)
+                    kinds = {"" if i.get_type() is None else str(i.get_type()) for i in ifs}
+                    bws = [i.get_capacities().bw for i in ifs]
+                    if len(kinds) != 1 or bws not in ([25, 100], [0, 0]):
+                        raise ExtractionError("generate_component(model_type=...): kinds %s / speeds %s of a synthetic %s entry" % (sorted(kinds), bws, T))
+                    obs.add((nm[nm.index("nm") + 2:], str(ns.get_type()), kinds.pop(), bws == [25, 100]))
+                if len(obs) != 1:
+                    raise ExtractionError("generate_component(model_type=...): rules for %s depend on the other arguments: %s" % (T, sorted(obs)))
+                rows.append((T,) + obs.pop())
+    finally:
+        cc_mod.ComponentModelType = saved_enum
+        cc_mod.ComponentModelTypeMap.clear()
+        cc_mod.ComponentModelTypeMap.update(saved_map)
+    return rows
+
+
+CONSUMER_OPS = ("iadd", "isub", "add", "sub", "update", "lt", "gt", "eq", "str", "repr", "to_json", "to_dict", "positive_fields",
+                "negative_fields", "free", "list_fields", "map")
+
+
+def probe_consumers(ic_mod, C):
+    """what a consumer does with the Capacities objects the catalogue hands out (get_instance_capacities / list_instances):
+    value operators and read-only methods.  Returns the operations after which a (synthetic) catalogue no longer serves the
+    values it was loaded with - `x += y` with x a catalogue object counts when the class works in place - and the operations
+    whose RESULT is a catalogue object although it is handed to the caller as a new value."""
+    import fim.slivers.capacities_labels as cl
+    K = ic_mod.InstanceCatalog
+    writes = []
+    for how in ("by-name", "listing"):
+        for op in CONSUMER_OPS:
+            cat = {"sz.a": C(core=2, ram=8, disk=10), "sz.b": C(core=4, ram=16, disk=100), "sz.z": C()}
+            snap = {k: dict(v.__dict__) for k, v in cat.items()}
+            with _swap_instances(ic_mod, cat):
+                def get(n):
+                    return K().get_instance_capacities(instance_type=n) if how == "by-name" else K().list_instances()[n]
+                try:
+                    for xn, yn in (("sz.b", "sz.a"), ("sz.a", "sz.z"), ("sz.z", "sz.b")):
+                        x, y = get(xn), get(yn)
+                        r = None
+                        if op == "iadd":
+                            x += y
+                        elif op == "isub":
+                            x -= y
+                        elif op == "add":
+                            r = x + y
+                        elif op == "sub":
+                            r = x - y
+                        elif op == "update":
+                            r = C.update(x)
+                        elif op == "lt":
+                            x < y
+                        elif op == "gt":
+                            x > y
+                        elif op == "eq":
+                            x == y
+                        elif op == "str":
+                            str(x)
+                        elif op == "repr":
+                            repr(x)
+                        elif op == "free":
+                            f = cl.FreeCapacity(total=x, allocated=y)
+                            str(f), f.core
+                        elif op == "positive_fields":
+                            x.positive_fields(["core", "ram", "disk"])
+                        elif op == "map":
+                            K().map_capacities_to_instance(cap=x)
+                        else:
+                            getattr(x, op)()
+                        if r is not None and any(r is v for v in cat.values()):
+                            writes.append(op + ":result-is-a-catalogue-object")
+                        served = {k: dict(K().get_instance_capacities(instance_type=k).__dict__) for k in snap}
+                        if served != snap or {k: dict(v.__dict__) for k, v in K().list_instances().items()} != snap:
+                            writes.append(op)
+                except ExtractionError:
+                    raise
+                except Exception as e:
+                    raise ExtractionError("Capacities.%s on catalogue objects raises %s: %s" % (op, type(e).__name__, e))
+    return sorted(set(writes))
+
+
 def probe_lookup(cc_mod):
     from fim.slivers.attached_components import ComponentType
     K = cc_mod.ComponentCatalog
@@ -469,6 +589,8 @@ def generate():
     ctree, csrc = parse(REL_C)
     find_func(find_class(ctree, "ComponentCatalog"), "generate_component")
     trows, psep, isep, units_mode = probe_types(cc_mod)
+    trows_m = probe_types_by_member(cc_mod)
+    cwrites = probe_consumers(ic_mod, C)
     nlookup = probe_lookup(cc_mod)
     nenum = probe_enum(cc_mod)
     with open(os.path.join(REPO, "fim/slivers/data/component_catalog.json")) as f:
@@ -515,6 +637,14 @@ def generate():
     body += "def typeTable : List TypeRow := [\n" + ",\n".join(
         "  { type := %s, suffix := %s, nsType := %s, kind := %s, speed := %s }" % (lean_str(t), lean_str(s), lean_str(n), lean_str(k), "true" if sp else "false")
         for t, s, n, k, sp in trows) + "]\n\n"
+    body += ("/-- the same table probed with the model named through the combined type-model enumeration (`model_type=`) instead of (ctype, model) -/\n"
+             "def typeTableM : List TypeRow := [\n" + ",\n".join(
+        "  { type := %s, suffix := %s, nsType := %s, kind := %s, speed := %s }" % (lean_str(t), lean_str(s_), lean_str(n), lean_str(k), "true" if sp else "false")
+        for t, s_, n, k, sp in trows_m) + "]\n\n")
+    body += ("/-- operations of a consumer on Capacities objects handed out by the instance catalogue (+= -= + - update < > == str repr to_json to_dict\n"
+             "positive_fields negative_fields FreeCapacity list_fields map_capacities_to_instance) after which a probe catalogue no longer serves the values it\n"
+             "was loaded with, or whose result is a catalogue object -/\n"
+             "def consumerWrites : List String := %s\n\n" % lean_list([lean_str(w) for w in cwrites]))
     body += "/-- `<parent><parentSep><name><suffix>` and `<name><ifaceSep><port>` -/\n"
     body += "def parentSep : String := %s\ndef ifaceSep : String := %s\n" % (lean_str(psep), lean_str(isep))
     body += "/-- how `units` is computed from the bdf label: `true` = only a list has a length (a scalar gives 1) -/\n"
@@ -523,7 +653,7 @@ def generate():
              "(probed for every entry) -/\ndef freshObjects : Bool := %s\n" % ("false" if shared else "true"))
     changed = emit("Catalog", body)
     return {"instances": len(rows), "instance_order": order, "components": len(crow), "fits": fits, "type_table": trows,
-            "separators": [psep, isep], "units_mode": units_mode, "shared_objects": shared[:5],
+            "type_table_by_member": trows_m, "consumer_writes": cwrites, "separators": [psep, isep], "units_mode": units_mode, "shared_objects": shared[:5],
             "probes": {"sizing_structure": nprobe, "lookup": nlookup, "enum": nenum}, "stateless_helpers": helpers,
             "technique": "symbolic execution of the filter + behavioural probes on synthetic catalogues",
             "changed": changed, "span": span_hash(src, fn)}
